@@ -3,7 +3,7 @@
    space-free rights text containing exactly the letters of g's rights, "-" or the name of g's en-passant square, and decimal texts of
    the two clocks -- Game::new_from_fen (Model/Fen.v) returns exactly g.  Quantified over the texts, not over one printer. *)
 From Coq Require Import NArith ZArith List Bool String Ascii Lia.
-From JV Require Import Gen.Consts Model.Bits Model.Chess Model.SearchChess Model.Fen Proofs.ZobristProofs Proofs.GenProofs Proofs.ConsProofs Proofs.RangeProofs
+From JV Require Import Gen.Consts Model.Bits Model.Chess Model.SearchChess Model.Fen Model.FenSyntax Proofs.ZobristProofs Proofs.GenProofs Proofs.ConsProofs Proofs.RangeProofs
   Proofs.CellProofs Proofs.LegalInv Proofs.FenBoard Proofs.StartPos.
 Import ListNotations.
 Local Open Scope string_scope.
